@@ -1215,7 +1215,7 @@ def call_contract(E, c, key, fnode, mod, clsnode, args, kwargs, fr, node):
                 if cell[0] == "obj" and not cell[2]:
                     cd = cell[1]
                     E.setcell(v, ("obj", cd, {f: E.fresh_of("%s.%s" % (short, f), t, assume_inv=False)
-                                              for f, t in cd.fields.items()}))
+                                              for f, t in cd.fields.items() if t != TAny}))
                 else:
                     E.setcell(v, E.havoc_cell(short + "." + m, cell))
         for g in c.modifies_ghost:
@@ -1265,7 +1265,12 @@ def matches(E, v, ty):
     if isinstance(ty, TList):
         return (isinstance(v, Ref) and E.cell(v)[0] in ("seq", "pylist", "iter")) or (
             isinstance(v, SV) and isinstance(v.ty, TList)) or isinstance(v, (tuple, list))
-    if isinstance(ty, (TDict, TPyDict)):
+    if isinstance(ty, TPyDict):
+        if not (isinstance(v, Ref) and E.cell(v)[0] in ("dict", "pydict")):
+            return False
+        # contract variants over literal dictionaries are told apart by their key sets
+        return E.cell(v)[0] != "pydict" or set(E.cell(v)[1]) == set(ty.fields)
+    if isinstance(ty, TDict):
         return isinstance(v, Ref) and E.cell(v)[0] in ("dict", "pydict")
     if isinstance(ty, TTuple):
         return isinstance(v, tuple) and len(v) == len(ty.elems)
